@@ -121,6 +121,8 @@ class FakeClock:
     def work(self, w):
         """True time passes without a sleep (a doer computing)."""
         w = float(w)
+        if w < 0:
+            raise AssertionError("true time cannot run backwards")
         if w:
             self.log.append(("work", self.true, w))
             self.true += w
